@@ -30,9 +30,9 @@ def run(ctx):
         ctx.cov["transitions"] += r["generated"]
         os.remove(r["out_path"])
     plans = [
-        ("allk", "perft,check,clock", 6 if quick else 12, 12000 if quick else 150000, 400 if quick else 3000),
-        ("allk", "nb", 4 if quick else 10, 12000 if quick else 150000, 400 if quick else 3000),
-        ("sample", "r0,cpw,crowd,std", 2 if quick else 6, 12000 if quick else 150000, 0),
+        ("allk", "perft,check,clock", 6 if quick else 14, 12000 if quick else 400000, 400 if quick else 6000),
+        ("allk", "nb", 4 if quick else 14, 12000 if quick else 400000, 400 if quick else 6000),
+        ("sample", "r0,cpw,crowd,std", 2 if quick else 14, 12000 if quick else 300000, 0),
     ]
     jobs = [(m, t, n, s, ev, km) for (m, t, n, ev, km) in plans for s in range(n)]
 
